@@ -77,6 +77,8 @@ def run_direct(c):
             P.reallocate_unphased(lik, np.array(c["phase"], dtype=float), np.array(c["blk"], dtype=np.int32), bes)
     except AssertionError:
         return "assert"
+    except IndexError:
+        return "index-error"
     if not np.array_equal(lik[:, 1], np.array(c["span"], dtype=float)):
         return "span-changed"
     return [float(x) for x in lik[:, 0]]
@@ -108,6 +110,8 @@ def oracle_direct(ctx, c, out):
     if isinstance(out, str):
         if out == "span-changed":
             ctx.oracle_fail("span-changed", "reallocate_unphased modified the span column", {"direct": c})
+        elif out == "index-error":
+            ctx.oracle_fail("index-error", "reallocate_unphased raised IndexError (a mutation without a block must be skipped)", {"direct": c})
         elif valid and c["consistent"]:
             ctx.oracle_fail("asserts-on-valid-input", "reallocate_unphased raised AssertionError although every singleton "
                             "has a phase in [0,1] and the counts hold one mutation per singleton", {"direct": c})
